@@ -59,7 +59,10 @@ class Realizer:
             if z3.is_app(term):
                 n = term.decl().name()
                 if n == 'hexenc': node = {'hexenc': self.str_node(term.arg(0))}
-                elif n == 'serpt': node = {'pt': str(self.intval(term.arg(0)))}
+                elif n == 'serpt':
+                    pt = term.arg(0)
+                    if z3.is_app(pt) and pt.decl().name() == 'h2c': node = {'h2c': self.str_node(pt.arg(0))}
+                    else: node = {'pt': str(self.intval(pt))}
                 elif n == 'serk': node = {'scalar': str(self.intval(term.arg(0)))}
                 elif n == 'sconcat': node = {'cat': [self.str_node(term.arg(0)), self.str_node(term.arg(1))]}
                 elif n == 'schnorr_sig':
@@ -67,6 +70,8 @@ class Realizer:
                 elif n == 'sha256': node = {'sha256': self.str_node(term.arg(0))}
                 elif n == 'if':
                     node = self.str_node(term.arg(1) if z3.is_true(self.ev(term.arg(0))) else term.arg(2))
+        if node is None and key in self.structured() and not self.structured()[key].eq(term):
+            node = self.str_node(self.structured()[key])      # a free string the model makes equal to a derived one
         if node is None:
             node = self.tiled(term)
         if node is None:
@@ -75,6 +80,13 @@ class Realizer:
             node = {'raw': s.encode('latin-1').hex()}
         self.cache[key] = node
         return node
+    def structured(self):
+        """model value -> derived term (registered by the models: strings a native run computes from other labels)"""
+        if getattr(self, '_structured', None) is None:
+            self._structured = {}
+            for t in self.E.P.g.get('derived_strs', []):
+                self._structured.setdefault(str(self.ev(t)), t)
+        return self._structured
     def tiled(self, term):
         """a string whose known substrings tile it completely: realise as their concatenation"""
         subs = self.E.P.g.get('subs', {}).get(term.get_id(), [])
